@@ -117,7 +117,7 @@ PLAN = {
                      {"gen": ("tlc", {"name": "proxy-env", "tla": "MC_Proxy.tla", "cfg": "MC_Proxy_env.cfg", "cfg_thorough": "MC_Proxy_env_thorough.cfg", "workers": 8}),
                       "runner": "proxy", "trace": "Trace_Proxy", "threads": 1},
                      {"gen": ("tlc", {"name": "hop-chains", "tla": "MC_Hops.tla", "cfg": "MC_Hops.cfg", "cfg_thorough": "MC_Hops_thorough.cfg", "workers": 8}),
-                      "runner": "loop", "trace": "Trace_SendLoop"}],
+                      "runner": "loop", "trace": "Trace_SendLoop", "also_counts": ["G08_dial", "G08_targetForm"]}],
         "rule": "hosts = label sequences of length 1..3 over {a, b, ab} plus IPv4/IPv6 literals x no-proxy lists of 0..2 entries (incl. the empty entry, upper case) x configured proxies, enumerated by TLC and judged through ProxySettings::for_url for both schemes and both letter cases of the host; all assignments of the eight environment variables over {unset, empty, garbage, url} (thorough: also blank, socks, https url) x NO_PROXY in {unset, empty, *, list with blanks/leading dot/upper case/empty entries}; the address dialled by send() is covered by the redirect-chain family",
         "assumptions": ["environment rows run in a single-threaded process that sets the real environment variables"],
         "replay_runner": "proxy", "replay_trace": "Trace_Proxy",
@@ -166,7 +166,9 @@ PLAN = {
         "replay_runner": "mpart", "replay_trace": "Trace_Multipart",
     },
     "C16": {
-        "mc": [],
+        "mc": [{"name": "settings-cells-refine-the-by-value-contract(Arc::make_mut)", "tla": "SettingsArcB.tla", "cfg": "SettingsArcB.cfg", "workers": 6, "extra": []},
+               {"name": "settings-shared-cell-mutated-in-place(design alternative)", "tla": "SettingsArcB.tla", "cfg": "SettingsArcB_shared.cfg", "workers": 6,
+                "expect_violation_text": "IsolationB is violated"}],
         "families": [{"gen": ("tlc", {"name": "settings-ops", "tla": "MC_Settings.tla", "cfg": "MC_Settings5.cfg", "workers": 8}),
                       "runner": "settings", "trace": "Trace_Settings"},
                      {"gen": ("tlc", {"name": "settings-deep", "tla": "MC_Settings.tla", "cfg": "MC_Settings_sim.cfg",
